@@ -154,7 +154,8 @@ def run(res, tier):
     n = 250 if tier == "quick" else 8000
     rng = R.make("C16")
     modes, outcomes, classes = {}, {}, set()
-    sources = [("corpus", s) for s in CORPUS] + [("deep", s) for s in DEEP]
+    sources = [("corpus", s) for s in CORPUS] + [("deep", s) for s in DEEP] + [("zoo-entry", s) for s in pysrc.zoo_programs()]
+    n += len(sources) - len(CORPUS) - len(DEEP)
     while len(sources) < n + len(CORPUS) + len(DEEP):
         sources.append(pysrc.generate(rng))
     nontrivial = set()
